@@ -4,7 +4,7 @@ MCVerbs == {"GET", "POST", "PUT", "DELETE"}
 MCQueryTokens == {"a", "&", "=", "%25", "%0D", "%0A", "-", "LONG"}
 MCBodies == {"none", "J1", "J2"}        \* J1: plain JSON object, J2: JSON whose strings look like multipart boundaries
 MCThresholds == 0..7
-MCEdits == {"drop_query_part", "drop_body_part", "unknown_part_type", "empty_query_part", "override_with_url_query", "unknown_top_type", "reframe_as_multipart", "stray_override"}
+MCEdits == {"drop_query_part", "drop_body_part", "unknown_part_type", "empty_query_part", "override_with_url_query", "unknown_top_type", "reframe_as_multipart", "stray_override", "extra_unknown_part"}
 \* Model -> code: one line per finished exchange
 Export == pc = "done" => PrintT(ToJson([orig |-> orig, th |-> th, tunnelled |-> Tunnels(orig.query, th), edit |-> edit,
                                          rejected |-> rejected, seen |-> seen]))
